@@ -228,6 +228,17 @@ def check(ctx):
         okx = all(x == tsim for x in xs) and nf.equal(nf.mul(tsim, tau), nf.div(nf.mul(tsim, tau), nf.ONE)) and not nf.depends(nf.mul(tsim, tau), "params") if False else all(x == tsim for x in xs)
         t_over_tau = nf.is_zero(nf.sub(nf.mul(tsim, tau), nf.mul(nf.mul(tsim, tau), nf.ONE))) and any(a == ("fn", ".value", (nf.key(nf.fn("[]", nf.sym("params"), nf.sym("'tau'"))),)) for a in nf.atoms(tsim))
         ctx.check(okx and t_over_tau, "C20-b", q + ":abscissa " + tag(p, ()), f.where(), "all three curves are drawn against the simulated time axis time / tau", signature="comparison abscissa", x=[nf.show(x, 80) for x in xs])
+        # the time axis itself: the Days column when every row is kept, the index of the productive days when filtered
+        targ = sims[0].data["args"]["time"]
+        filt = next((c for _k, c, d in p.decisions if d == "filter_zero_prod_days"), None)
+        if filt:
+            okt = isinstance(targ, Vec) and not targ.over and nf.equal(nf.mul(targ.gen, tau), nf.sym("@J"))
+            want_t = "the running index 0..n-1 of the productive days, divided by tau"
+        else:
+            days = nf.fn("[]", nf.fn("[]", nf.sym("prod_data"), nf.sym("'Days'"), nf.sym("'Gas'"), nf.sym("'Pressure'")), nf.sym("'Days'"))
+            okt = nf.equal(nf.mul(tsim, tau), days)
+            want_t = "the Days column of the table, divided by tau"
+        ctx.check(okt, "C20-b", q + ":time axis " + tag(p, ()), f.where(), "the simulated and plotted time is " + want_t, signature="comparison time axis", time=nf.show(tsim, 160))
         ctx.check(len(rfa) == 1 and ys[0] == nf.atom_poly(rfa[0]), "C20-b", q + ":simulated recovery " + tag(p, ()), f.where(), "curve 1 is the recovery factor of the simulation just run", signature="comparison recovery", y=nf.show(ys[0], 120))
         cum = nf.mul(ys[1], M)
         okc = any(a[0] == "fn" and a[1] == "cumsum" for a in nf.atoms(cum)) and it2.single_atom(cum) is not None
